@@ -357,8 +357,10 @@ Section Closed.
     - constructor.
     - destruct Hb. now apply Ok_clone_struct.
     - now apply Ok_clone_enum.
-    - oks. apply Ok_debug_expr; [exact Hb|]. intros f (_ & Hm & _). oks.
-      destruct dbl as [i|]; [destruct (fl_index f =? i)|]; okc.
+    - oks.
+      + destruct dbl; [okc | constructor].
+      + apply Ok_debug_expr; [exact Hb|]. intros f (_ & Hm & _).
+        destruct dbl as [i|]; [destruct (fl_index f =? i)|]; oks; okc.
     - oks; [apply Ok_match_self | |]; destruct (Forall_In _ _ _ Hb H) as [Ha Hd].
       + apply Ok_make_pat; [okc|reflexivity|exact Ha].
       + apply Ok_debug_expr; [exact Hd|]. intros f _. oks.
